@@ -1,13 +1,13 @@
 (* C24  NTP packets survive a decode/encode round trip.
    Every packet the decoder accepts (without keys) can be encoded again without
    error, and after one normalising round the encoding is stable.
-   Property theorems only; proofs are in Proofs/RoundTrip.v.
+   Property theorems only; proofs are in Proofs/RoundTrip.v and Proofs/FixedPoint.v.
 
    The model is the tree WITH the C24 repair (branch fix-c24: a v5 reference-id
    request whose payload is not a whole number of words is rejected by the
    decoder).  On the unrepaired tree the correspondence differs on exactly that
    class and the check's monitor reports the datagram whose re-encoding panics. *)
-From V Require Import Model.Packet Proofs.Packet Proofs.RoundTrip.
+From V Require Import Model.Packet Proofs.Packet Proofs.RoundTrip Proofs.FixedPoint.
 
 (* Whatever the decoder accepts without keys (any byte string, NTPv3/v4/v5,
    any extension fields, any MAC) is encoded by [serialize] without error and
@@ -19,6 +19,22 @@ Theorem C24_reencode_ok : forall (dec : oracle) (data : bytes) (p : packet) (c :
   c = None /\
   exists b1, forall enc cap, blen b1 <= cap -> serialize enc None cap None p = Ok b1.
 Proof. exact reencode_ok. Qed.
+
+(* ... and after that one normalising round the encoding is stable: the bytes b1
+   produced from the accepted packet decode (without keys) to a packet p1 which
+   encodes to exactly b1 again; hence decoding the re-encoded packet yields the
+   same packet p1 and encoding it again yields the same bytes (reading of
+   "one normalising round", DESIGN.md section 5: b1 is a fixed point of
+   encode . decode and p1 of decode . encode).  All versions, all field kinds
+   incl. unknown type ids, padding to the RFC 7822 minimum sizes, MACs. *)
+Theorem C24_fixed_point : forall (dec : oracle) (data : bytes) (p : packet) (c : option cookie),
+  wf_bytes data ->
+  deserialize dec NoKeys data = Ok (Accept p c) ->
+  exists b1 p1,
+    (forall enc cap, blen b1 <= cap -> serialize enc None cap None p = Ok b1) /\
+    deserialize dec NoKeys b1 = Ok (Accept p1 None) /\
+    (forall enc cap, blen b1 <= cap -> serialize enc None cap None p1 = Ok b1).
+Proof. exact fixed_point. Qed.
 
 (* non-vacuity and the fixed point on a concrete NTPv5 datagram with a draft
    identification and a reference-id request of 8 octets: accepted, re-encoded,
@@ -39,3 +55,4 @@ Proof.
 Qed.
 
 Print Assumptions C24_reencode_ok.
+Print Assumptions C24_fixed_point.
